@@ -165,7 +165,7 @@ def unit_block(U):
                     list(p.pc) + hy, z3.And(*noself) if noself else z3.BoolVal(True), vars_, replay=replay)
 
 
-def _finish_run(it, dis_g, dis_t, nrows, same_gene, keep=False):
+def _finish_run(it, dis_g, dis_t, nrows, same_gene, keep=False, on_execute=None):
     def run(ctx):
         rows = []
         for i in range(nrows):
@@ -192,7 +192,7 @@ def _finish_run(it, dis_g, dis_t, nrows, same_gene, keep=False):
             seqid, _ = IM.sval("ext%d.seqid" % n)
             ext[n] = (args, mn, mx, strand, seqid)
             return [ghostdb.GhostRow(["MIN(start)", "MAX(end)", "strand", "seqid"], [mn, mx, strand, seqid])]
-        conn = ghostdb.GhostConn(result_for=result_for)
+        conn = ghostdb.GhostConn(result_for=result_for, on_execute=on_execute(ctx) if on_execute else None)
         cr = IM.blank_creator(C._GTFDBCreator, conn, id_spec=dict(GTF_SPEC), counters=IM.SymMap("cnt"), disable_infer_genes=dis_g, disable_infer_transcripts=dis_t,
                               _keep_tempfiles=keep)
         ctx.stash.update(rows=rows, ext=ext, state=state, cr=cr)
@@ -395,7 +395,63 @@ def unit_driving_query(U):
                      "%d random databases (<= 7 features, <= 12 relation rows) in real sqlite3; query text taken from the executed statement" % n, cases, fails)
 
 
-UNITS = [("block", unit_block), ("finish", unit_finish), ("route", unit_route), ("driving_query", unit_driving_query)]
+def unit_finish_collision(U):
+    """the derived gene/transcript of an id that an explicit line of the file already holds: the explicit line stays
+    the single feature under that id - whatever _do_merge answers (merged into it, or no candidate), no further row is
+    inserted into features"""
+    import sqlite3
+    for answer in ("merge", "create_unique"):
+        it, fs = _interp()
+        def mk_on_execute(ctx):
+            state = {"n": 0}
+
+            def on_execute(cur, q, a):
+                st = Q.parse(q)
+                if st.kind == "insert" and IM.insert_info(st.node)[0] == "features":
+                    state["n"] += 1
+                    if state["n"] == 1:
+                        raise sqlite3.IntegrityError("UNIQUE constraint failed: features.id")
+            return on_execute
+        inner = _finish_run(it, False, True, 1, True, on_execute=mk_on_execute)          # one driving row, gene inference on
+
+        def run(ctx, answer=answer):
+            def do_merge(interp, a, k):
+                f = a[1]
+                if answer == "merge":
+                    return (f, "merge")
+                # no candidate: _do_merge renames the newcomer to '<id>_1' and answers create_unique (contract C05.do_merge.*)
+                f.id = SStr(list(SStr.of(f.id).atoms) + [Lit("_1")])
+                return (f, "create_unique")
+            it.contracts[C._DBCreator._do_merge] = do_merge
+            return inner(ctx)
+
+        def replay(m):
+            lines = [("gene", 5, 90, {"gene_id": "g1"}), ("transcript", 5, 90, {"gene_id": "g1", "transcript_id": "t1"}),
+                     ("exon", 10, 20, {"gene_id": "g1", "transcript_id": "t1"}), ("exon", 40, 50, {"gene_id": "g1", "transcript_id": "t1"})]
+            out, bad = {}, False
+            for dg, dt in itertools.product((False, True), repeat=2):
+                import warnings
+                with warnings.catch_warnings():
+                    warnings.simplefilter("ignore")
+                    db, rel = native_gtf(lines, disable_infer_genes=dg, disable_infer_transcripts=dt)
+                got = sorted((f.id, f.featuretype) for f in db.all_features() if f.featuretype in ("gene", "transcript"))
+                out[str((dg, dt))] = got
+                if got != [("g1", "gene"), ("t1", "transcript")]:
+                    bad = True
+            return {"inputs": "explicit gene and transcript lines + 2 exons; all four flag combinations", "expected": [("g1", "gene"), ("t1", "transcript")], "observed": out, "violates": bad}
+        base = "C03.gtf.finish[explicit-line,do_merge=%s]" % answer
+        for p in U.explore(run, it):
+            if p.kind != "return":
+                U.prove(base + ".noraise#p%d" % p.index, "raises nothing (got %r)" % (p.value,), p.pc, z3.BoolVal(False), {}, replay=replay)
+                continue
+            effs = IM.classify(p.ctx.effects)
+            ins = [e for e in effs if e.kind == "insert" and e.table == "features"]
+            dels = [e for e in effs if e.kind == "delete" and e.table == "features"]
+            U.prove(base + ".single#p%d" % p.index, "the INSERT of the derived feature collides with the explicit line ==> no other row is inserted into (or deleted from) features: the explicit line stays the single feature under its id",
+                    [], z3.BoolVal(len(ins) == 1 and not dels), {}, replay=replay)
+
+
+UNITS = [("block", unit_block), ("finish", unit_finish), ("finish_collision", unit_finish_collision), ("route", unit_route), ("driving_query", unit_driving_query)]
 try:
     from standins import C03 as _S
     UNITS = UNITS + list(_S.UNITS)
